@@ -12,11 +12,16 @@ def sh(cmd, cwd, env=None, timeout=900):
 
 def main():
     only = sys.argv[1:] 
-    for out in sorted(glob.glob('/tmp/seed/C*-out')):
-        pid = os.path.basename(out)[:-4]
+    for out in sorted(glob.glob('/tmp/seed/C*-out')) + sorted(glob.glob('/tmp/seed/C*-out2')):
+        rnd2 = out.endswith('-out2')
+        pid = os.path.basename(out)[:3]
         wt = '/tmp/seed/' + pid
         for n in (1, 2):
-            name = f'{pid}-{n}'
+            if not os.path.exists(f'{out}/meta{n}.json') or not os.path.exists(f'{out}/patch{n}.diff'):
+                continue
+            name = f'{pid}-{n + 2 if rnd2 else n}'
+            if os.path.exists(f'/verif/seeded/{name}/meta.json') and not only:
+                continue
             if only and name not in only and pid not in only:
                 continue
             dst = f'/verif/seeded/{name}'
@@ -34,6 +39,8 @@ def main():
             if m: env['GODEBUG'] = m.group(1)
             if os.path.isdir(f'{out}/demo{n}'):
                 shutil.copytree(f'{out}/demo{n}', f'{wt}/zzseeddemo', dirs_exist_ok=True)
+                if 'go run' not in cmd and 'go test' in cmd:
+                    pass
                 tags = re.search(r'-tags (\S+)', cmd)
                 demo = f"GOCOVERDIR=$(mktemp -d) go run {'-tags '+tags.group(1) if tags else ''} -cover -covermode=atomic ./zzseeddemo"
                 demofile = f'demo{n}'
